@@ -3,6 +3,8 @@ package logqlengine
 import (
 	"maps"
 	"regexp"
+	"slices"
+	"strings"
 
 	"github.com/cespare/xxhash/v2"
 	"go.opentelemetry.io/collector/pdata/pcommon"
@@ -30,6 +32,11 @@ func newAggregatedLabels(set LabelSet, by, without map[string]struct{}) *aggrega
 			name:  string(l),
 			value: v.AsString(),
 		})
+	})
+
+	// Sort entries by name: the grouping key must not depend on map iteration order.
+	slices.SortFunc(labels, func(a, b labelEntry) int {
+		return strings.Compare(a.name, b.name)
 	})
 
 	return &aggregatedLabels{
